@@ -10,6 +10,8 @@ def S(fl, tiers, **kw):
     return Ob("print.scanner.fl%d" % fl, "C14/print_scanner.c", defs=["FL=%d" % fl], replace=["Show.c"], unwind=fl + 7, unwindset=us, checks=["bounds", "pointer"],
               tiers=tiers, object_bits=14, replace_calls=["format_to:verif_format_to", "show_to:verif_show_to"], desc="print_to_with on every well-formed format string of <= %d bytes" % fl, **kw)
 OBLIGATIONS = [S(3, ("quick", "thorough"), timeout=1800), S(5, ("thorough",), timeout=3600, mem_gb=12), S(6, ("thorough",), timeout=7200, mem_gb=16)]
+from props._compose import pick as _pick
+OBLIGATIONS = list(OBLIGATIONS) + _pick("C02", r"table\.show\.") + _pick("C04", r"array\.show\.")
 LEVEL_TEXT = ("Bounded model checking of the real print_to_with scanner on every well-formed format string of <= 3 (quick) / <= 6 (thorough) bytes with symbolic bytes, "
               "arguments and start position, against an independent tokenizer; memory safety of the fragment buffer included.")
 LEVEL_NOTE = ("Trusted: cbmc; the C formatting layer (vsnprintf/vfprintf) is a recorder returning arbitrary lengths -- the characters libc produces are outside the check; "
